@@ -141,8 +141,13 @@ impl TypeDependencyGraph {
             output.push_str(&format!("  └─ returns: {}\n", cmd.return_type));
         }
 
+        // Name order: the maps iterate in a different order on every run
+        let mut type_names: Vec<&String> = self.resolved_types.keys().collect();
+        type_names.sort();
+
         output.push_str("\n🏗️  Discovered Types:\n");
-        for (type_name, struct_info) in &self.resolved_types {
+        for type_name in type_names.iter().copied() {
+            let struct_info = &self.resolved_types[type_name];
             let type_kind = if struct_info.is_enum {
                 "enum"
             } else {
@@ -159,7 +164,8 @@ impl TypeDependencyGraph {
             // Show dependencies
             if let Some(deps) = self.dependencies.get(type_name) {
                 if !deps.is_empty() {
-                    let deps_list: Vec<String> = deps.iter().cloned().collect();
+                    let mut deps_list: Vec<String> = deps.iter().cloned().collect();
+                    deps_list.sort();
                     output.push_str(&format!("  └─ depends on: {}\n", deps_list.join(", ")));
                 }
             }
@@ -167,7 +173,7 @@ impl TypeDependencyGraph {
 
         // Show dependency chains
         output.push_str("\n🔗 Dependency Chains:\n");
-        for type_name in self.resolved_types.keys() {
+        for type_name in type_names.iter().copied() {
             self.show_dependency_chain(type_name, &mut output, 0);
         }
 
@@ -187,6 +193,8 @@ impl TypeDependencyGraph {
         output.push_str(&format!("{}├─ {}\n", indent_str, type_name));
 
         if let Some(deps) = self.dependencies.get(type_name) {
+            let mut deps: Vec<&String> = deps.iter().collect();
+            deps.sort();
             for dep in deps {
                 if indent < 3 {
                     // Prevent too deep recursion in visualization
@@ -212,8 +220,10 @@ impl TypeDependencyGraph {
             ));
         }
 
-        // Add type nodes
-        for type_name in self.resolved_types.keys() {
+        // Add type nodes (in name order: the maps iterate in a different order on every run)
+        let mut type_names: Vec<&String> = self.resolved_types.keys().collect();
+        type_names.sort();
+        for type_name in type_names {
             output.push_str(&format!("  \"{}\" [color=green];\n", type_name));
         }
 
@@ -236,7 +246,11 @@ impl TypeDependencyGraph {
         }
 
         // Add type dependency edges
-        for (type_name, deps) in &self.dependencies {
+        let mut dependents: Vec<&String> = self.dependencies.keys().collect();
+        dependents.sort();
+        for type_name in dependents {
+            let mut deps: Vec<&String> = self.dependencies[type_name].iter().collect();
+            deps.sort();
             for dep in deps {
                 output.push_str(&format!("  \"{}\" -> \"{}\";\n", type_name, dep));
             }
